@@ -482,6 +482,12 @@ NextPin:
 			pIn.Key = "0"
 		}
 
+		if pIn.Value == 0 {
+			// SQLite does not preserve the sign of zero, so normalize -0 to 0
+			// so the hash matches what is read back
+			pIn.Value = 0
+		}
+
 		for j, pDb := range dbPoints {
 			if pIn.Type == pDb.Type && pIn.Key == pDb.Key {
 				// found a match
@@ -663,6 +669,12 @@ NextPin:
 
 		if pIn.Key == "" {
 			pIn.Key = "0"
+		}
+
+		if pIn.Value == 0 {
+			// SQLite does not preserve the sign of zero, so normalize -0 to 0
+			// so the hash matches what is read back
+			pIn.Value = 0
 		}
 
 		for j, pDb := range dbPoints {
